@@ -840,6 +840,11 @@ class BaseSection(base.Sectionable):
         lst = childlist
         old_index = lst.index(self)
 
+        # An index that is no integer is refused before anything is moved.
+        if not isinstance(new_index, int):
+            raise TypeError("reorder: the new index has to be an integer, not '%s'" %
+                            type(new_index).__name__)
+
         # Take the object out of the list first; inserting it while it is
         # still listed drops a sibling when a negative index is used.
         del lst[old_index]
